@@ -3,6 +3,7 @@
 import torch
 
 from linear_operator import settings
+from linear_operator.utils import _verif
 
 
 def lanczos_tridiag(
@@ -143,11 +144,20 @@ def lanczos_tridiag(
             # Update q_mat with new q value
             q_mat[k + 1].copy_(r_vec)
 
+            if _verif.ENABLED:
+                _verif.emit(
+                    "lanczos.iter", k=k, alpha=alpha_curr, beta=beta_curr, could_reorthogonalize=could_reorthogonalize,
+                    budget=num_iter,
+                )
+
             if torch.sum(beta_curr.abs() > 1e-6) == 0 or not could_reorthogonalize:
                 break
 
     # Now let's transpose q_mat, t_mat intot the correct shape
     num_iter = k + 1
+
+    if _verif.ENABLED:
+        _verif.emit("lanczos.end", num_iter=num_iter, init_vecs=init_vecs, matrix_shape=matrix_shape)
 
     # num_init_vecs x batch_shape x matrix_shape[-1] x num_iter
     q_mat = q_mat[:num_iter].permute(-1, *range(1, 1 + len(batch_shape)), -2, 0).contiguous()
